@@ -182,6 +182,18 @@ def handle : Handler := fun op inp impl => do
                        ("C16.returns_in_time", returnsInTime inTime),
                        ("C16.no_panic", noPanic pan)],
              tags := [s!"probe:{kind}", s!"probe:outcome:{outcome}"] }
+  | "iso" =>
+    -- C19: the Lua runtime is not modelled; the oracle compares what a probe script sees when it runs alone,
+    -- after a script that left globals / patched libraries behind, and while such scripts run concurrently
+    match jopt impl "panic" with
+    | some _ => return { model := .null, holds := [("C19.lua_fresh_state", false)], tags := ["iso:panic"] }
+    | none =>
+      let solo ← fStr impl "solo"
+      let after ← fStr impl "after"
+      let conc ← fBool impl "conc_same"
+      return { model := .null,
+               holds := [("C19.lua_fresh_state", solo == after), ("C19.lua_concurrent_same", conc)],
+               tags := ["iso", if (← fNat inp "conc") > 0 then "iso:concurrent" else "iso:sequential"] }
   | "run" =>
     let cls ← fStr inp "class"
     let script ← fStr inp "script"
